@@ -59,8 +59,8 @@ def parse(path):
     for raw in text.replace("\r\n", "\n").replace("\r", "\n").split("\n"):
         s = raw.split("#", 1)[0].strip()
         toks.append(s)
-    # blank lines are only tolerated at the very end of the file
-    while toks and toks[-1] == "":
+    # text.split(newline) leaves one empty token after the final newline
+    if toks and toks[-1] == "":
         toks.pop()
     pos = 0
     n = len(toks)
@@ -78,6 +78,8 @@ def parse(path):
     _unquote(nxt("version"), "version")
     sizes, attrs = {}, []
     while pos < n:
+        if all(t == "" for t in toks[pos:]):
+            break  # blank lines are only tolerated at the very end of the file
         tag = nxt("chunk tag")
         if tag == "[ATTS]":
             name = _unquote(nxt("attribute set name"), "attribute set name")
@@ -100,6 +102,9 @@ def parse(path):
             count = sizes[sname] * dim
             vals = []
             for k in range(count):
+                if pos >= n and typ not in TYPES:
+                    vals.append("")  # values of a non-geogram type are opaque text, possibly empty
+                    continue
                 if pos >= n:
                     raise FormatError("attribute %s of %s: %d values announced, file ends after %d" % (aname, sname, count, k),
                                       code="fewer_values_than_announced_in_" + (aname.split("::")[-1] if aname in INTERNAL or "::" in aname else "user_attribute"))
